@@ -185,6 +185,12 @@ _PF_TEMPLATES = {
     'globnone': 'def w(a, *args, **kwargs):\n    return callee(*args, **kwargs)\n',
     'globkw': 'def w(a, *args, **kwargs):\n    return callee(*args, **kwargs)\n',
     'globpos': 'def w(a, *args, **kwargs):\n    return callee(*args, **kwargs)\n',
+    # the wrapper is decorated with a modifier (discovery goes through its autoforwards hint): the bound positional still
+    # resolves the callee, exactly as for the natively written twin wn
+    'hintkwo': 'from sigtools import modifiers\n@modifiers.kwoargs("opt")\ndef w(cb, opt=None, *args, **kwargs):\n    return cb(*args, **kwargs)\n'
+               'def wn(cb, *args, opt=None, **kwargs):\n    return cb(*args, **kwargs)\n',
+    'hintposo': 'from sigtools import modifiers\n@modifiers.posoargs("cb")\ndef w(cb, *args, **kwargs):\n    return cb(*args, **kwargs)\n'
+                'def wn(cb, /, *args, **kwargs):\n    return cb(*args, **kwargs)\n',
 }
 
 
@@ -199,8 +205,10 @@ def rt_partialfwd(req):
     src += core.def_source(cps, name='callee', body='return ("callee",)').rstrip('\n').split('\n')
     src += core.def_source(dps, name='DEFAULT', body='return ("default",)').rstrip('\n').split('\n')
     src += _PF_TEMPLATES[tmpl].rstrip('\n').split('\n')
-    if tmpl == 'posparam':
+    if tmpl in ('posparam', 'hintkwo', 'hintposo'):
         src += ['p = functools.partial(w, callee%s)' % ''.join(', %d' % (700 + i) for i in range(extra))]
+        if tmpl != 'posparam':
+            src += ['pn = functools.partial(wn, callee%s)' % ''.join(', %d' % (700 + i) for i in range(extra))]
     elif tmpl == 'kwdefault':
         src += ['p = functools.partial(w, 1%s)' % ''.join(', %d' % (700 + i) for i in range(extra))]
     elif tmpl == 'nestedpartial':
@@ -256,7 +264,14 @@ def rt_partialfwd(req):
                             sig, m, K, e, text))
                         break
             return ('ok', tuple(problems[:2]), 'glob-executed:%d' % ran)
-        if tmpl not in ('posparam', 'nestedpartial') and str(sig) != str(plain):
+        if tmpl in ('hintkwo', 'hintposo'):
+            with warnings.catch_warnings():
+                warnings.simplefilter('ignore')
+                twin = sigtools.signature(mod.pn)
+            if str(sig) != str(twin):
+                problems.append('partialfwd-hint-differs: functools.partial over a modifiers-decorated forwarding wrapper is reported as %s, '
+                                'over its natively written twin as %s\n%s' % (sig, twin, text))
+        if tmpl not in ('posparam', 'nestedpartial', 'hintkwo', 'hintposo') and str(sig) != str(plain):
             problems.append('partialfwd-resolved-unbound: the callee is not bound positionally, yet sigtools.signature(p) = %s differs from '
                             'signatures.signature(p) = %s\n%s' % (sig, plain, text))
         d = sig.sources['+depths'].get(mod.p)
@@ -264,7 +279,7 @@ def rt_partialfwd(req):
             problems.append('partialfwd-depth: the partial object has depth %r\n%s' % (d, text))
         R = [(q.name, core.KIND_NAME[q.kind], None if q.default is q.empty else 1) for q in sig.parameters.values()]
         ins = [[(q[0], q[1], q[2]) for q in cps], [(q[0], q[1], q[2]) for q in dps],
-               [('a', 'pk', None), ('cb', 'pk', None), ('args', 'vp', None), ('target', 'ko', 1), ('kwargs', 'vk', None)]]
+               [('a', 'pk', None), ('cb', 'pk', None), ('args', 'vp', None), ('target', 'ko', 1), ('opt', 'ko', 1), ('kwargs', 'vk', None)]]
         ran = 0
         if str(sig) == str(plain):
             # nothing was discovered: what the callee does with the forwarded arguments is outside the claim
